@@ -373,7 +373,7 @@ def run(ctx):
     for i in range(ngen):
         style = ['plain', 'genlike', 'weird'][i % 3]
         gen_docs.append(refgen.gen_ref_doc(rng, id_style=style, big=(i % 5 == 0)))
-    crafted = refgen.crafted_docs()
+    crafted = refgen.crafted_docs() + refgen.group_attr_docs()
     gen_docs = crafted + gen_docs
     ngen = len(gen_docs)
     docs = ['@' + f for f in wit] + ['@' + f for f in corpus] + gen_docs
@@ -615,6 +615,48 @@ def run(ctx):
                           "or on its shape, or a kept kernel has a target outside / a wrong number of values",
                           dict(doc=kdocs[k], op='dump', case=kcases[k],
                                implementation=t['filters'][0]['primitives'][0]['kind'] if t['filters'] else None))
+
+    # ------------------------------------------------------------------ K: specular exponent
+    svals = list(refgen.SPECULAR_VALUES) + [repr(round(rng.uniform(-2, 3), 3)) for _ in range(20 if quick else 200)] + \
+            [repr(round(rng.uniform(120, 140), 2)) for _ in range(10 if quick else 100)]
+    sdocs = [refgen.specular_doc(v) for v in svals]
+    souts = ctx.rvh_batch(binp, 'dump', ["-\t" + d for d in sdocs])
+    sitems = []
+    smap2 = []
+    for k, (v, d, o) in enumerate(zip(svals, sdocs, souts)):
+        t = jload(o)
+        if 'root' not in t:
+            ctx.violation("specular document failed to parse: %s" % str(t)[:200], dict(doc=d, result=t))
+            continue
+        kd = t['filters'][0]['primitives'][0]['kind'] if t['filters'] else {'k': 'none'}
+        obs = '(Some %s)' % vlib.qstr(kd['specular_exponent']) if kd['k'] == 'SpecularLighting' and isinstance(kd['specular_exponent'], (int, float)) else 'None'
+        if kd['k'] == 'SpecularLighting' and obs == 'None':
+            ctx.violation("specular exponent %r is stored as %r" % (v, kd['specular_exponent']), dict(doc=d, op='dump'))
+            continue
+        import struct
+        attr = 'None' if v is None else '(Some %s)' % vlib.qstr(struct.unpack('f', struct.pack('f', float(v)))[0])
+        ctx.note_case('specular/%s' % v, nontrivial=kd['k'] == 'SpecularLighting')
+        sitems.append('(%s, %s)' % (attr, obs))
+        smap2.append(k)
+    ctx.cov['specular_cases'] = len(sitems)
+    if sitems:
+        body = ("From Coq Require Import QArith List Bool.\nImport ListNotations.\nLocal Open Scope Q_scope.\n"
+                "Definition oq_eqb (a b : option Q) : bool := match a, b with Some x, Some y => Qeq_bool x y | None, None => true | _, _ => false end.\n"
+                "Definition in_range (o : option Q) : bool := match o with Some e => Qle_bool 1 e && Qle_bool e 128 | None => true end.\n"
+                "Definition cases : list (option Q * option Q) := [\n%s\n].\n"
+                "Eval vm_compute in (bad_indices (fun c => oq_eqb (specular_exponent (fst c)) (snd c) && in_range (snd c)) cases).\n"
+                % ";\n".join(sitems))
+        rc, out = ctx.coq_eval('k_specular', body, ['Model.Filters', 'Model.Corr'])
+        bl = ctx.parse_N_list(out) if rc == 0 else None
+        if bl is None:
+            ctx.log("model evaluation (specular) failed:\n" + out[-1500:])
+            ctx.violation("the specular correspondence could not be evaluated", dict(op='specular'), found_input=False)
+        for b in (bl or [])[:3]:
+            k = smap2[b]
+            t = jload(souts[k])
+            ctx.violation("feSpecularLighting specularExponent=%r: Model/Filters.v specular_exponent and the implementation disagree, or the stored "
+                          "exponent is outside [1, 128]" % svals[k],
+                          dict(doc=sdocs[k], op='dump', implementation=t['filters'][0]['primitives'][0]['kind'] if t['filters'] else None))
 
     # ------------------------------------------------------------------ proof broke: model-level search
     if not proof_ok and not ctx.violations:
